@@ -36,8 +36,8 @@ ASSUMPTIONS = [
     "token weights and USDG amounts in a v1 row are integers (as in the recorded data); quantize overflow beyond 35 digits is modelled as InvalidOperation",
     "v2 rows given as pandas Series are well formed (non-zero prices, pool value, supply): numpy floats return inf/nan where Python floats raise ZeroDivisionError",
     "same bar = the pool row does not react to the user's own trade (that is how the backtester works)",
-    "float amounts beyond ~1e100 make `diffUsd ** exponent` raise OverflowError, which the model does not reproduce: the special-number stream stops at 1e90 "
-    "(fixes/gmx-v2-deposit-overflow.md records what happens at 1e308 with allow_negative_balance)",
+    "huge float amounts (1e200: `**` raises OverflowError; 1e308: amount x price = inf) are exercised on dataclass rows only: numpy doubles of pandas rows "
+    "answer inf/nan where Python floats raise",
 ]
 
 
